@@ -64,6 +64,17 @@ pub fn main(a: &Args) {
         }
     }
     proper.sort();
+    // the same names typed on a keyboard without accents (a dictionary may know how to find them; the title must
+    // still be the typed letters in another case)
+    fn unaccent(c: char) -> char {
+        match c { 'á' | 'à' | 'â' | 'ä' | 'ã' | 'å' | 'ā' => 'a', 'é' | 'è' | 'ê' | 'ë' | 'ē' | 'ě' => 'e', 'í' | 'ì' | 'î' | 'ï' | 'ī' | 'ı' => 'i',
+            'ó' | 'ò' | 'ô' | 'ö' | 'õ' | 'ø' | 'ō' | 'ő' => 'o', 'ú' | 'ù' | 'û' | 'ü' | 'ū' | 'ű' => 'u', 'ç' | 'č' | 'ć' => 'c', 'ñ' | 'ń' | 'ň' => 'n',
+            'š' | 'ś' | 'ş' => 's', 'ž' | 'ź' | 'ż' => 'z', 'ý' | 'ÿ' => 'y', 'ğ' => 'g', 'ł' => 'l', 'ř' => 'r', 'ť' => 't', 'ď' | 'đ' => 'd',
+            'Á' | 'À' | 'Â' | 'Ä' | 'Å' => 'A', 'É' | 'È' | 'Ê' => 'E', 'Í' | 'İ' => 'I', 'Ó' | 'Ö' | 'Ø' => 'O', 'Ú' | 'Ü' => 'U', 'Ç' | 'Č' => 'C', 'Š' | 'Ś' => 'S', 'Ž' => 'Z', 'Ł' => 'L',
+            c => c }
+    }
+    let plain_typed: Vec<String> = proper.iter().filter(|s| !s.is_ascii()).map(|s| s.chars().map(unaccent).collect::<String>()).filter(|s| s.is_ascii()).collect();
+    proper.extend(plain_typed.iter().cloned());
     let fillers = ["of", "the", "and", "in", "a", "for", "about", "between", "is", "us", "it", "2nd", "3.5",
         "e.g.", "well-known", "naïve", "café", "世界", "😀", "—", "-", "'tis", "O’Neil", "iOS", "macOS", "IT", "(and)", "\"the\"", "ßtraße", "ﬁnal", "ﬂight", "ŉ", "ǰoy", "ǆungla", "ǅ", "ﬃ", "ẞ", "ı", "İ", "ſ", "K", "Å"];
     let mut texts: Vec<String> = Vec::new();
